@@ -108,6 +108,41 @@ def check(ctx: Ctx) -> str:
         loop = _Idx().visit(loop)
         set_parents(loop)
         src = ast.unparse(loop)
+    # two adjacent tests with the same leaving body are one disjunction
+    # (`if A: return r` + `if B: return r` is `if A or B: return r`)
+    from ..normalize import clone as _cl19a, set_parents as _sp19a
+
+    loop = _cl19a(loop)  # (the shared normal form is not modified)
+    _sp19a(loop)
+
+    def _flat(st: ast.stmt) -> list[ast.stmt]:
+        # `if A: <leave> elif B: <leave>` is `if A: <leave>` followed by `if B: <leave>`
+        if isinstance(st, ast.If) and len(st.orelse) == 1 and isinstance(st.orelse[0], ast.If) and st.body and isinstance(st.body[-1], (ast.Return, ast.Continue, ast.Raise, ast.Break)):
+            rest_ = st.orelse[0]
+            st.orelse = []
+            return [st] + _flat(rest_)
+        return [st]
+
+    flat_body = [y for x in list(loop.body) for y in _flat(x)]
+    changed_shape = len(flat_body) != len(loop.body)
+    loop.body = flat_body
+    merged_body: list[ast.stmt] = []
+    for st_ in list(loop.body):
+        prev = merged_body[-1] if merged_body else None
+        if (isinstance(st_, ast.If) and isinstance(prev, ast.If) and not st_.orelse and not prev.orelse and st_.body and isinstance(st_.body[-1], (ast.Return, ast.Continue, ast.Raise, ast.Break))
+                and [ast.unparse(x) for x in st_.body] == [ast.unparse(x) for x in prev.body]):
+            lhs = prev.test.values if isinstance(prev.test, ast.BoolOp) and isinstance(prev.test.op, ast.Or) else [prev.test]
+            prev.test = ast.BoolOp(op=ast.Or(), values=list(lhs) + [st_.test])
+            continue
+        merged_body.append(st_)
+    if changed_shape or len(merged_body) != len(loop.body):
+        from ..normalize import clone as _cl19, set_parents as _sp19
+
+        loop = _cl19(loop) if False else loop
+        loop.body = merged_body
+        ast.fix_missing_locations(loop)
+        _sp19(loop)
+        src = ast.unparse(loop)
     first_match = False
     any_match = False
     covers_class = False
